@@ -127,31 +127,14 @@ def core(r, lib, struct_name_guards=True):
     # ---- G1b: every function that adds to the reservation list adds exactly the name it returns, only when not contained
     for name in sorted(res):
         c0 = lib.bodies[name]
-        from .common import look_through_private
-        c = look_through_private(lib, c0, also=not_res)
-        pushes = [cs for cs in c.calls() if cname(cs.node) in PUSHERS and _is_reserved_list(c, cs.node["args"][0])]
-        ok = len(pushes) == 1
-        why = "%d pushes onto the reservation list" % len(pushes)
-        if ok:
-            p = pushes[0]
-            g = guards_of(c, p.bb) + dominating_edge_guards(c, p.bb)
-            pushed = strip(term_of(c, p.node["args"][1]), mir.VALUE_PRESERVING)
-            cont = [x for x in g if x[0] == "call" and x[3] is False and (x[1] in CONTAINS or _any_equals(lib, c, x))]
-            same = False
-            for x in cont:
-                tested = strip(x[2][1]) if x[1] in CONTAINS else _any_needle(lib, c, x)
-                if tested is not None and _same_var(tested, pushed):
-                    if len(x) > 5 and pushed[0] == "local":
-                        region = c.reach_from(x[5][1], avoid={x[5][0]})
-                        redefs = [d for d in c.defs().get(pushed[1], []) if d.bb in region and p.bb in c.reach_from(d.bb)]
-                        same = not redefs
-                    else:
-                        same = True
-            ret = _returned_after(c, p)
-            ok = bool(cont) and same and ret is not None and _same_var(ret, pushed)
-            why = "a name is reserved only on the `!reserved.contains(name)` edge and that same name is returned" if ok else \
-                "reservation: guarded by !contains=%s of the pushed value=%s, returned value is the pushed one=%s" % (bool(cont), same, ret is not None and _same_var(ret, pushed))
-        r.ob("G1.uniqueness-guard", c0.name, ok, why, site=pushes[0] if pushes else mir.line_of(c0.span), key="G1|reserve")
+        from .common import look_through_private, normal_form
+        ok, why, site = _uniqueness_guard(lib, look_through_private(lib, c0, also=not_res), c0)
+        if not ok:
+            # the same question on the normal form (iterator pipelines / closure calls made explicit)
+            ok2, why2, site2 = _uniqueness_guard(lib, normal_form(lib, c0, also=not_res), c0)
+            if ok2:
+                ok, why, site = ok2, why2, site2
+        r.ob("G1.uniqueness-guard", c0.name, ok, why, site=site, key="G1|reserve")
     for name in sorted(res_star):
         c = lib.bodies[name]
         for cs in c.calls():
@@ -278,7 +261,7 @@ def map_coverage(r, lib, R):
     """I1/I2: the identifier map has an entry for every child and every attribute of the element (full traversal,
     unconditional insert), keyed the way the renderer looks it up"""
     from .common import normal_form, find_loop_of
-    from .c16 import peel_iter
+    from .c16 import peel_iter, ORDER_ONLY
     mb = [x for x in lib.real_bodies() if x.name.endswith("identifier::Map::new")]
     if len(mb) != 1:
         return
@@ -333,6 +316,7 @@ def map_coverage(r, lib, R):
                 coll, adapters = peel_iter(term_of(m, nxt.node["args"][0]))
                 fs = [e[3] for e in coll[2] if e != "*" and e[0] == "f"] if coll[0] == "proj" and coll[1] == ("arg", 1) else None
                 g = guards_of(m, cs.bb, within=lp[1])
+                adapters = [a for a in adapters if a not in ORDER_ONLY]     # reservation order only decides who gets a suffix
                 ok = fs == [field] and not adapters and not g and nxt.bb in lp[1]
                 why = "one entry per %s: the loop covers element.%s completely and stores unconditionally" % (kind, field) if ok else \
                     "the %s entries come from %s via %s under %s: some %s get no identifier" % (kind, fs, [a.split("::")[-1] for a in adapters], [guard_s(x) for x in g], field)
@@ -365,6 +349,49 @@ def map_coverage(r, lib, R):
         r.ob("G1.lookup-key-agrees", "%s: get_name(.., %s)" % (b.name, kind), ok, "looked up by the key the map stores (%s)" % (looked,) if ok else
              "the renderer looks up %s entries by %s, the map stores them under %s: the lookup misses and the unguarded raw name is emitted" % (kind, looked, want), site=cs,
              key="G1|keyagree|%s" % kind)
+
+
+def _uniqueness_guard(lib, c, c0):
+    PUSHERS = ("std::vec::Vec::push", "std::collections::HashSet::insert", "std::collections::BTreeSet::insert")
+    pushes = [cs for cs in c.calls() if cname(cs.node) in PUSHERS and _is_reserved_list(c, cs.node["args"][0])]
+    ok = len(pushes) == 1
+    why = "%d pushes onto the reservation list" % len(pushes)
+    if ok:
+        p = pushes[0]
+        g = guards_of(c, p.bb) + dominating_edge_guards(c, p.bb)
+        pushed = strip(term_of(c, p.node["args"][1]), mir.VALUE_PRESERVING)
+        # `candidates.find(|c| !reserved.contains(c)).expect(..)`: the value is the Some payload built on the hit edge
+        # of the search loop; the guards of that edge are the guards of the value
+        def some_site(t):
+            if t[0] == "call" and t[1] in ("std::option::Option::expect", "std::option::Option::unwrap") and t[2]:
+                d0 = strip(t[2][0])
+                if d0[0] == "local":
+                    somes = [d for d in c.defs().get(d0[1], []) if d.si is not None and d.node["k"] == "assign" and d.node["rv"]["k"] == "agg" and d.node["rv"].get("variant") == "Some"]
+                    if len(somes) == 1:
+                        return somes[0]
+            return None
+        ss = some_site(pushed)
+        if ss is not None:
+            g = g + guards_of(c, ss.bb)
+            pushed = strip(term_of(c, ss.node["rv"]["ops"][0]), mir.VALUE_PRESERVING)
+        cont = [x for x in g if x[0] == "call" and x[3] is False and (x[1] in CONTAINS or _any_equals(lib, c, x))]
+        same = False
+        for x in cont:
+            tested = strip(x[2][1]) if x[1] in CONTAINS else _any_needle(lib, c, x)
+            if tested is not None and _same_var(tested, pushed):
+                if len(x) > 5 and pushed[0] == "local":
+                    region = c.reach_from(x[5][1], avoid={x[5][0]})
+                    redefs = [d for d in c.defs().get(pushed[1], []) if d.bb in region and p.bb in c.reach_from(d.bb)]
+                    same = not redefs
+                else:
+                    same = True
+        ret = _returned_after(c, p)
+        if ret is not None and some_site(ret) is not None:
+            ret = strip(term_of(c, some_site(ret).node["rv"]["ops"][0]), mir.VALUE_PRESERVING)
+        ok = bool(cont) and same and ret is not None and _same_var(ret, pushed)
+        why = "a name is reserved only on the `!reserved.contains(name)` edge and that same name is returned" if ok else \
+            "reservation: guarded by !contains=%s of the pushed value=%s, returned value is the pushed one=%s" % (bool(cont), same, ret is not None and _same_var(ret, pushed))
+    return ok, why, (pushes[0] if pushes else mir.line_of(c0.span))
 
 
 def _value_sources(b, t, depth=0):
@@ -535,7 +562,7 @@ def hint_totality(r, lib, path_fns):
     collector records the element on every path and descends into all children unconditionally; the hint table gets an
     entry >= 1 for every collected name"""
     from .common import find_loop_of
-    from .c16 import peel_iter
+    from .c16 import peel_iter, ORDER_ONLY
     MAPS = ("std::collections::HashMap", "std::collections::BTreeMap")
     REC = ("push", "push_back", "push_front", "insert", "extend")
     collectors = []
@@ -573,6 +600,7 @@ def hint_totality(r, lib, path_fns):
                     coll, adapters = peel_iter(term_of(bd, nx[0].node["args"][0]))
                     fs = [e[3] for e in coll[2] if e != "*" and e[0] == "f"] if coll[0] == "proj" and coll[1][0] == "arg" else None
                     g = guards_of(bd, cs.bb, within=lp[1])
+                    adapters = [a for a in adapters if a not in ORDER_ONLY]     # the name table is a set of traces per name
                     okl = fs == ["children"] and not adapters and not g
                     why = "descends into every child unconditionally" if okl else "recursion over %s via %s under %s" % (fs, [a.rsplit("::", 1)[-1] for a in adapters], [guard_s(x) for x in g])
             r.ob("H4.descends-into-all-children", bd.name, okl, why, site=cs, key="H4|descend")
